@@ -1,63 +1,123 @@
 """Configuration of ./check for C16 (see tools/props.py)."""
 ENTRY = {'coq_dir': 'C16',
- 'coq_deps': ['C15'],
+ 'coq_deps': ['C15', 'C14', 'C17'],
  'harness': 'c16',
  'cases': {'quick': 6000, 'thorough': 200000},
  'consts': ['PARALLELISM_FACTOR', 'REPLICATION_FACTOR', 'KAD_READ_TIMEOUT_SECS', 'KAD_WRITE_TIMEOUT_SECS'],
  'nontrivial_min_trace': 60,
  'rule': 'the REAL `Kademlia::run` loop (polled by hand, tokio time paused) on a real TransportService fed through its event channel, a '
          'real TransportManager handle whose peer table decides the results of dial(), in-memory substream carriers, the real '
-         'KademliaHandle as the user. Stream 1: the 7 corpus witnesses (the four repaired defects in six shapes, plus a silent peer ended '
-         'by the 15 s executor timeout). Stream 2: N seeded adaptive histories on 2-7 peers, replication factor in {1,2,3,20}: 1-3 (quick) '
-         '/ 1-5 (thorough) user operations of every kind (find_node, put_record, put_record_to_peers incl. unknown / local / duplicate '
-         'peers, get_record with and without a local record, start_providing, get_providers) with quorums One / N(1-4) / All, running '
-         'concurrently; per peer the manager believes no-address / dialable / connected / dialing; the environment answers every dial '
-         '(established with a live or an already dead connection task, or dial failure), every substream (opened or open failure) and '
-         'every executor future (fitting reply with random closer peers / records / providers, wrong message type, undecodable bytes, '
-         'ADD_PROVIDER as a reply, send failure, read failure, PUT_VALUE ack or none, via the carrier or via the 15 s timeout) in random '
-         'order, interleaved with unsolicited connections, closures, dying connection tasks, changes of the manager\'s belief, inbound '
-         'requests of every type and stale / unknown substream, dial and future events; 88% of the histories end with the environment '
-         'discharging everything it still owes. One harness event = one `select!` event = one poll of the loop; after each, the emitted '
+         'KademliaHandle as the user. Stream 1: the 17 corpus witnesses (the five repaired defects F-C16a..e in seven shapes; a silent '
+         'peer ended by the 15 s read timeout and a peer that never takes the PUT_VALUE frame ended by the write timeout; a connection '
+         "closed while a request is outstanding; provider refresh fired by the store's timer; two refresh timers for one key, "
+         'stop_providing, timers firing without effect; requests of a remote peer served while user operations are in flight; Manual '
+         'validation of incoming records + store_record; Manual routing-table updates + add_known_peer; the loop parked on a one-slot '
+         'event channel; five pending peers at once under a zero peer timeout). Stream 2: N seeded adaptive histories on 2-7 peers, '
+         'replication factor in {1,2,3,20}: 1-3 (quick) / 1-5 (thorough) user operations of every kind (find_node, put_record, '
+         'put_record_to_peers incl. unknown / local / duplicate peers, get_record with and without a local record, start_providing, '
+         'get_providers, provider refresh) with quorums One / N(1-4) / All, running concurrently; per peer the manager believes no-address '
+         '/ dialable / connected / dialing; the environment answers every dial (established with a live or an already dead connection '
+         'task, or dial failure), every substream (opened or open failure) and plays the SUBSTREAM of every executor future: the write '
+         'side accepts the frame / fails / blocks for ever, the read side delivers a message (fitting reply with random closer peers / '
+         'records / providers, wrong message type, undecodable bytes, ADD_PROVIDER as a reply, PUT_VALUE ack) / ends / stays silent - the '
+         'case records the behaviour, the QueryResult is computed by the executor model (Exec.v) from the kind of the future; a blocking '
+         'or silent substream is resolved by advancing the paused clock 16 s (only with that one future in flight). All in random order, '
+         "interleaved with unsolicited connections, closures, dying connection tasks, changes of the manager's belief, inbound substreams "
+         'with requests of every type, and stale / unknown substream, dial and future events; 88% of the histories end with the '
+         'environment discharging everything it still owes. Of every ten histories: four run against the COMPOSED model (commands are '
+         'user-level: seeds, distance ranks, known peers of put_record_to_peers and the local-record flag are computed by the model from '
+         'its own routing table (C14 model, real SHA-256 keys) and store (C17 model); add_known_peer / store_record / stop_providing '
+         'commands; a request read from an inbound substream is about a record key (FIND_NODE / PUT_VALUE / GET_VALUE / GET_PROVIDERS / '
+         'ADD_PROVIDER) and the reply the node writes - record attached or not, closer peers in order - is captured from the carrier and '
+         "compared with the model's; the store's refresh timers are fired one at a time by advancing the clock to the earliest deadline; "
+         'one composed history in four runs with RoutingTableUpdateMode::Manual, one in four with IncomingRecordValidationMode::Manual; '
+         'compared after every event: the dumps of all non-empty k-buckets (peer, has-address, connection state, in bucket order), the '
+         'stored record keys, the local provider keys and the number of armed refresh timers), two run on an event channel of 1-3 slots '
+         '(the user receives at random moments; compared: what the user received, whether the loop is parked, the dump when it is not), '
+         'two run with a zero peer timeout. One harness event = one `select!` event = one poll of the loop; after each, the emitted '
          'KademliaEvents (in order), the send-phase target lists and a dump of pending_dials, peers[..].pending_actions, '
          'pending_substreams, executor length and every live query (lookup sets / tracking context) are compared with the extracted Coq '
-         'model, which replays the same events with the served-query order, seed candidates and XOR-distance ranks observed on the '
-         'implementation. prop_ok re-judges the property text on the implementation\'s trace alone: at most one terminal event per '
-         'operation and none for unknown ids; when the environment owes nothing any more (every queued dial answered by a connection or a '
-         'dial failure, every pending substream answered, no future in flight) every started operation has exactly one terminal event; a '
-         'PutRecordSuccess / AddProviderSuccess needs send completions to at least clamp(quorum, |targets|) distinct target peers. '
-         'Non-trivial: trace >= 60 numbers; distinct (case, trace) pairs are counted.',
- 'level_text': 'Proof: for every configuration with parallelism factor >= 1, every initial manager belief and EVERY event history '
-               '(commands, any order in which the drain loop serves the queries, connection / substream / dial events, executor '
-               'completions with arbitrary messages, environment changes) the model of the repaired code keeps the invariant "nobody '
-               'waits for nothing": each peer a live query waits for (lookup `pending`, send-phase `pending_peers`) has an outstanding '
-               'obligation of that query and of the matching kind in pending_dials, pending_actions or the executor; every pending '
-               'action is reachable through pending_substreams (histories in which the service reports opened substreams for the right '
-               'peer); hence when nothing is owed and the engine is drained no query is left, and with query ids drawn from a counter '
-               'every started operation has produced exactly one terminal event with its id, never two (terminal events + liveness = '
-               'starts, for every id, after every history); every iteration of the drain loop strictly decreases the weight of the '
-               'served query and touches no other query (the drained state is always reached); a PutRecordSuccess / '
-               'AddProviderSuccess is emitted only when executor futures of that operation reported completed sends to at least '
-               'clamp(requested quorum, number of targets) distinct target peers. The lookups inside the engine are the C15 model (each engine call is one C15 '
-               'step; C15\'s progress theorem gives the no-deadlock step).',
- 'level_note': 'Liveness is relative to the environment discharging its obligations (dial -> Established | DialFailure, open -> Opened | '
-               'OpenFailure, executor futures complete within the 15 s read/write timeouts) - these are C05 / C08 / tokio guarantees '
-               'taken as given; "bounded time" is a bound in those timeouts, not measured. Not proved in Coq: a global step bound over a '
-               'peer universe (C15\'s measure lifted through the glue) and the "at most one obligation per (query, peer)" direction; the '
-               'quorum theorem counts completed sends of any future of the operation (a stale FIND_NODE reply of the lookup phase would '
-               'count too; that it cannot hit a target needs C15\'s never-twice argument and is not lifted). Not modelled: routing table and store (seed candidates, filtered peer '
-               'lists and the local-record flag are inputs), peer timeout staleness (C15), provider refresh, await points inside a '
-               'handler (full event channel).',
- 'trusted_base': ['the cfg(verif) probe inside `Kademlia::run` (two add-only statements: one log entry per engine action, one snapshot when '
-                  'the loop is about to wait) and the public wrapper around the crate-private Kademlia object',
-                  'HashMap iteration order of the engine, routing-table answers and SHA-256 distance ranks enter the model as inputs '
-                  'recorded from the implementation (served-query events, seeds, dists); the model validates every served query (it must '
-                  'have an action) and that the engine is drained before each select! event',
+         'model, which replays the same events with the served-query order (and, outside the composed mode, the seed candidates and '
+         'XOR-distance ranks) observed on the implementation. Stream 3: three put_record_to_peers operations between real nodes over '
+         "loopback TCP (F-C16a end to end, deadline-bounded). prop_ok re-judges the property text on the implementation's trace alone: at "
+         'most one terminal event per operation and none for unknown ids (a refresh counts as an operation when the user provides the key: '
+         'start_providing not followed by stop_providing); when the environment owes nothing any more every started operation has exactly '
+         'one terminal event; a PutRecordSuccess / AddProviderSuccess needs PUT_VALUE / ADD_PROVIDER futures whose WRITE side accepted the '
+         'frame, to at least clamp(quorum, |targets|) distinct target peers; bounded time: after the environment has let 16 s pass with a '
+         'future in flight, fewer futures are in flight; in composed mode the targets of put_record_to_peers are peers the caller named; '
+         'on a bounded channel the same is judged on what the user received. Non-trivial: trace >= 60 numbers; distinct (case, trace) '
+         'pairs are counted.',
+ 'level_text': 'Proof: for every configuration with parallelism factor >= 1 (any replication factor, any peer timeout), every initial '
+               'manager belief and EVERY event history (commands, any order in which the drain loop serves the queries, connection / '
+               'substream / dial events, executor completions with arbitrary messages, requests of remote peers, environment changes, time '
+               'passing) the model of the repaired code keeps the invariant "nobody waits for nothing": each peer a live query waits for '
+               'has EXACTLY ONE outstanding obligation of that query and of the matching kind in pending_dials, pending_actions or the '
+               'executor (C16_no_wait_for_nothing / _at_most_one / _exactly_one); every pending action is reachable through '
+               'pending_substreams; when nothing is owed and the engine is drained no query is left, and with ids from a counter every '
+               'started operation has produced exactly one terminal event with its id, never two (C16_one_terminal / _terminates). '
+               "Termination with an explicit bound: C15's lookup measure lifted to a global measure M (C16_step_measure), a stuck state is "
+               'idle and drained (C16_stuck_idle), every fair schedule without new work has at most B = sum of (10 n + 5 k + 2) per '
+               'command, (5 |peers| + 2) per put_record_to_peers, 2 per inbound substream productive events and ends with one terminal '
+               'event per operation (C16_fair_terminates). BOUNDED TIME (new): obligations carry their time of birth; in a schedule where '
+               'the clock never passes D beyond the birth of an outstanding obligation and time passes only while the loop waits, the '
+               'event after k productive ones happens at most D (k + 1) after the start, hence every terminal event within D * B '
+               "(C16_bounded_time / _bounded_time_budget); for the executor's futures D is not an assumption: the five kinds of futures "
+               'are modelled with their write / read phases and timers against every behaviour of the substream (Exec.v) - the result is '
+               "always one the loop's model accepts and every accepted result occurs (C16_executor_sound / _complete), no future lives "
+               'longer than WRITE_TIMEOUT + READ_TIMEOUT (C16_executor_bounded), a silent peer ends in the failure path exactly '
+               'READ_TIMEOUT after the write (C16_executor_silent_peer), and a send-phase completion counts as sent exactly when the frame '
+               'was written (C16_executor_sent). Quorum honesty at full strength (C16_quorum_honest). Await points on a full event channel '
+               '(C16_bounded_channel / _channel_drains). Requests of remote peers served by the same loop (new): inbound traffic neither '
+               'starts, ends nor touches a user operation - engine, pending_dials, pending_substreams, every pending action and every '
+               'query future are unchanged, only IncomingRecord / IncomingProvider are emitted (C16_inbound_isolated; a FAILED inbound '
+               'future runs disconnect_peer like any other and is covered by the general theorems). The COMPOSITION with the routing table '
+               "(C14 model) and the store (C17 model): refinement (C16_compose_refines), C14's table invariant under everything the loop "
+               "does, disconnect_peer being C14's ODisconnected operation (C16_table_invariant), seeds = RoutingTable::closest "
+               '(C16_seeds_from_table), put_record_to_peers targets named peers only (C16_put_to_peers_named), GetRecord and the local '
+               'store (C16_get_record_local / _put_then_get); the reply to an inbound FIND_NODE / GET_VALUE / GET_PROVIDERS is closest() '
+               'of the current table - never the local peer, at most k - with the record exactly when the store has it, and a stored '
+               'record is served to every later GET_VALUE (C16_inbound_reply / _serve_after_put); IncomingRecordValidationMode::Manual: no '
+               'event of the loop writes the store, Automatic: the record is stored when the request is read (C16_manual_validation / '
+               '_auto_validation); RoutingTableUpdateMode::Manual: after every history every peer in the table was put there by '
+               "add_known_peer (C16_manual_routing_table); the store's refresh timers: a firing timer starts a refresh exactly when the "
+               "last start_providing of the key has not been followed by stop_providing, with that call's quorum, and re-arms; a provided "
+               'key always has a timer (C16_refresh_due / _provided_has_timer); side conditions hold by construction and the glue theorems '
+               'are restated for composed histories incl. fair termination over the key table as peer universe (C16_compose_cmds_ok / '
+               '_no_wait / _one_terminal / _terminates / _fair_terminates / _at_most_one / _quorum_honest). The lookups inside the engine '
+               'are the C15 model.',
+ 'level_note': 'Liveness is relative to the environment discharging its obligations: dial -> Established | DialFailure and open -> Opened '
+               "| OpenFailure are C05 / C08 guarantees taken as given (the D of C16_bounded_time for them is the transport layer's); for "
+               'executor futures the bound is proved on the executor model and exercised with the paused clock. There is no query '
+               'cancellation API in the crate. In the composed model records carry one logical ttl and the store clock stands still '
+               "(record expiry is C17's subject); provider RECORDS of the store (known providers handed to get_providers, the add_provider "
+               "side of an inbound ADD_PROVIDER, GET_PROVIDERS replies' provider lists) stay inputs / unmodelled - only the local-provider "
+               'bookkeeping (keys, quorums, timers) is modelled, assuming put_provider accepts the local provider (capacity of 10000 '
+               'provider keys is not reached). Refresh timers are a multiset without deadlines: which armed timer fires next is an input. '
+               'The harness exercises staleness at the two extremes (timeout unreachable / zero), the theorems cover every timeout. Full '
+               'buckets are reached by the F-C16e witness only (the generator uses 10 peers).',
+ 'trusted_base': ['the cfg(verif) probe inside `Kademlia::run` (two add-only statements: one log entry per engine action, one snapshot '
+                  'when the loop is about to wait; the snapshot reads the glue maps, the engine, the k-buckets, the store keys, the local '
+                  'provider keys and the number of armed refresh timers) and the public wrapper around the crate-private Kademlia object',
+                  'HashMap iteration order of the engine enters the model as an input recorded from the implementation (served-query '
+                  'events); outside the composed mode so do routing-table answers and SHA-256 distance ranks (seeds, dists). The model '
+                  'validates every served query (it must have an action) and that the engine is drained before each select! event. In '
+                  "composed mode the peers' and record keys' SHA-256 hashes are data of the case (computed by the crate's Key::from / "
+                  'Key::new)',
                   'dial() results are forced through the real TransportManagerHandle peer table (verif_force_peer), open_substream results '
-                  'through the real connection handle (dropped receiver); carriers are in-memory AsyncRead/AsyncWrite objects',
-                  'tokio paused clock for the executor timeouts (advance 16 s with exactly one future in flight)'],
+                  'through the real connection handle (dropped receiver); carriers are in-memory AsyncRead/AsyncWrite objects (write '
+                  'accepted / failing / blocking, or taken-but-not-flushed so that a reply can be read before its future completes)',
+                  'tokio paused clock for the executor timeouts (advance 16 s with exactly one future in flight and no refresh timer due) '
+                  'and the refresh timers (advance to the earliest deadline; deadlines are kept >= 3 ms apart); '
+                  'ConfigBuilder::verif_build_bounded for an event channel of 1-3 slots; QueryEngine::verif_force_peer_timeout(0) for the '
+                  'staleness stream (std::time::Instant cannot be paused)'],
  'assumptions': ['parallelism factor >= 1 (shipped: 3)',
-                 'query ids are fresh per command (KademliaHandle draws them from an atomic counter)',
+                 'query ids are fresh per command (KademliaHandle and the refresh handler draw them from one atomic counter)',
+                 'the routing table never returns the local peer and put_record_to_peers is not given one peer twice (`cmd_ok`; a THEOREM '
+                 'for composed histories: C16_compose_cmds_ok needs only that the caller names no peer twice)',
                  'the service reports SubstreamOpened for the peer the substream was requested from (C08)',
-                 'every obligation is eventually discharged by the environment: a queued dial by ConnectionEstablished or DialFailure (C05; '
-                 'see F-C05c for a manager path that stays silent), an open by Opened/OpenFailure, executor futures by their 15 s timeouts',
-                 'inbound substream ids are distinct from the service\'s substream counter (harness numbering)']}
+                 'every obligation is eventually discharged by the environment: a queued dial by ConnectionEstablished or DialFailure '
+                 '(C05; see F-C05c for a manager path that stays silent), an open by Opened/OpenFailure (C08); executor futures by their '
+                 'own timers (proved: C16_executor_bounded)',
+                 'composed model: every peer label has one 256-bit key and distinct peers have distinct keys (`keys_ok`; SHA-256 '
+                 'collisions aside)',
+                 "inbound substream ids are distinct from the service's substream counter (harness numbering)"]}
